@@ -143,7 +143,10 @@ def run(ctx):
         rng = random.Random(ctx.seed)
         singles = [c for c in cases if len(c["flags"]) <= 1]
         pairs = [c for c in cases if len(c["flags"]) == 2]
-        cases = singles + rng.sample(pairs, min(len(pairs), 420))
+        # options that only act together with another one (-af / -afs with -a, tick labels with tick positions) exist as pairs only: all kept
+        needy = [c for c in pairs if set(c["flags"]) & {"-af", "-afs", "-xticklabels", "-yticklabels"}]
+        rest = [c for c in pairs if c not in needy]
+        cases = singles + needy + rng.sample(rest, min(len(rest), 380))
     cases.sort(key=lambda c: c["plot"])
     for n, divs in par.pmap(_check_chunk, [cases[i:i + 24] for i in range(0, len(cases), 24)], chunk=1):
         ctx.evaluations += n
